@@ -101,7 +101,20 @@ func c05Sequential(ev *vlib.Evidence, driver string, idx int) {
 		}
 		var nonce int64
 		class := ""
-		switch r.Intn(8) {
+		legacy := false
+		switch r.Intn(11) {
+		case 8:
+			nonce, class = vlib.Pick(r, int64(-9223372036854775808), int64(-9000000000000000000), int64(-8000000000000000000), int64(0), int64(1), int64(-1)), "extreme"
+		case 9, 10:
+			// the deprecated keep-alive format: signature over {peers, block_number} only
+			if method == "vipnode_update" {
+				legacy = true
+			}
+			if r.Intn(2) == 0 {
+				nonce, class = hw[identity], "legacy-equal"
+			} else {
+				nonce, class = base+int64(s*1000+r.Intn(1000)), "legacy-higher"
+			}
 		case 0:
 			nonce, class = hw[identity], "equal"
 		case 1:
@@ -114,7 +127,15 @@ func c05Sequential(ev *vlib.Evidence, driver string, idx int) {
 			nonce, class = base+int64(s*1000+r.Intn(1000)), "higher"
 		}
 		want := nonce > hw[identity] && nonce > time.Now().Add(-15*time.Minute).UnixNano()
-		out := guardedCall(svc, method, append([]interface{}{vlib.RefSign(id.Key, method, identity, nonce, args...), identity, nonce}, args...)...)
+		signArgs := args
+		if legacy {
+			req := args[0].(pool.UpdateRequest)
+			signArgs = []interface{}{struct {
+				Peers       []string `json:"peers"`
+				BlockNumber uint64   `json:"block_number"`
+			}{req.Peers, req.BlockNumber}}
+		}
+		out := guardedCall(svc, method, append([]interface{}{vlib.RefSign(id.Key, method, identity, nonce, signArgs...), identity, nonce}, args...)...)
 		got := out.Accepted && out.Panic == ""
 		trace = append(trace, fmt.Sprintf("%s %s nonce=%s(%d) hw=%d -> accepted=%v", id.Name, method, class, nonce, hw[identity], got))
 		ev.Count("seq-submissions:"+class, 1)
